@@ -58,7 +58,7 @@ class CallGen:
         # registered names are case sensitive C identifiers
         name = self.ch.choice(["vf", "vF", "satU", "lowBits"], "fname") + f"{self.uid}_{self.n}"
         kind = ch.weighted([("ret_param", 4), ("ret_cast", 3), ("ret_bin", 3), ("local", 3), ("branch", 3), ("postinc", 4),
-                            ("nested", 4 if self.value_funcs() else 0), ("loop", 2), ("void_write", 2), ("pc_read", 1), ("ext_write_ret", 1)], "fkind")
+                            ("nested", 4 if self.value_funcs() else 0), ("loop", 2), ("void_write", 2), ("pc_read", 1), ("ext_write_ret", 3)], "fkind")
         A = self.cfg == "A"
         if kind == "ret_param":
             P = ch.choice(ALL_T, "P")
@@ -243,7 +243,7 @@ class CallGen:
         srcs = ["RssV", "RttV"]
 
         def load_arg(P, k):
-            if ch.chance(1, 8, "cmparg"):
+            if ch.chance(1, 5, "cmparg"):
                 # the argument is directly a comparison result (int 0/1 in C)
                 T = ch.choice(WIDE_T, "cmpT")
                 v1, v2 = fresh(k), fresh(k)
@@ -323,7 +323,8 @@ class CallGen:
             uses = [f["name"], g["name"]]
         elif form == "branch_call":
             # a call with a by-reference register operand as a statement of one arm of an if: it runs only when that arm does
-            f = ch.choice(voids, "vf")
+            valued = [x for x in voids if x["ret"] is not None]
+            f = ch.choice(valued if valued and ch.chance(2, 3, "valued") else voids, "vf")
             P = [pt for pt, _ in f["params"] if pt[0] != "ext"][0]
             A_ = self.arg_for(P, "RssV", "A")
             arg = ("cast", A_, ("reg", "RssV", ("s", 64)))
